@@ -20,7 +20,8 @@ RULE = ("plan = list of 0..10 dicts (keys a:int|None and b:str|None always prese
 CASES = {"quick": 2000, "thorough": 24000}
 FUZZ_RUNS = {"thorough": 20000}     # coverage-guided leg, 8 processes (vlib/fuzz.py)
 
-VA = [None, 0, 1, 2]
+# -1 / -2 and 0 / 2**61 - 1 have equal hashes in CPython: distinct keys that a hash-only comparison would merge
+VA = [None, 0, 1, 2, 0, 1, 2, -1, -2, 2**61 - 1]
 VB = [None, "x", "y", "xy"]
 VC = [None, 1, "x", True]
 
